@@ -424,7 +424,7 @@ def rule_decorated_object(ctx, rule_id, api, helper, selector, default_by_type):
                     env[p_] = None
                 # the options parameter: the one forwarded to the helper in the single-callable form
                 env["options"] = session_opts if "options" in prm else None
-                t = Tiny(env, default_call=default, opaque_globals=True)
+                t = Tiny(env, default_call=default, opaque_globals=True, local_defs=lambda nm_: nm_ != helper)   # local helpers are followed, the observed request helper is not
                 r = t.run(body)
                 got = [c for c in calls]
                 desc = f"options to the call {'given' if given else 'absent'}, own options of the four patterns {['own' if x else 'none' for x in layout]}, URI types {['wildcard' if x == WILD else 'exact' for x in types_]}"
@@ -484,14 +484,29 @@ def expand_expr_helpers(ctx, fn):
             if a.vararg or a.kwarg or a.kwonlyargs or a.defaults or a.posonlyargs:
                 return node
             body = [s for s in m.node.body if not (isinstance(s, ast.Expr) and isinstance(s.value, ast.Constant))]
-            if not (len(body) == 1 and isinstance(body[0], ast.Return) and body[0].value is not None):
+            if not (body and isinstance(body[-1], ast.Return) and body[-1].value is not None):
                 return node
             params = [x.arg for x in a.args][1:]
+            # `tmp = <expr>` statements before the return (each local assigned once, read once afterwards) are folded into the returned expression
+            ret = copy.deepcopy(body[-1].value)
+            locs = {}
+            for st_ in body[:-1]:
+                if not (isinstance(st_, ast.Assign) and len(st_.targets) == 1 and isinstance(st_.targets[0], ast.Name) and st_.targets[0].id not in params
+                        and st_.targets[0].id not in locs):
+                    return node
+                locs[st_.targets[0].id] = st_.value
+            for nm_ in reversed(list(locs)):
+                later = [ret] + [locs[k_] for k_ in list(locs)[list(locs).index(nm_) + 1:]]
+                uses = sum(1 for e_ in later for x in ast.walk(e_) if isinstance(x, ast.Name) and x.id == nm_)
+                if uses != 1:
+                    return node
+            for nm_ in reversed(list(locs)):
+                ret = _Subst({nm_: locs[nm_]}).visit(ast.Expression(body=ret)).body
             if len(params) != len(node.args) or not all(_plain_read(x) or isinstance(x, ast.Constant) for x in node.args):
                 return node
-            if any(isinstance(x, (ast.Lambda, ast.Await, ast.Yield, ast.YieldFrom, ast.NamedExpr)) for x in ast.walk(body[0].value)):
+            if any(isinstance(x, (ast.Lambda, ast.Await, ast.Yield, ast.YieldFrom, ast.NamedExpr)) for x in ast.walk(ret)):
                 return node
-            e = _Subst(dict(zip(params, node.args))).visit(ast.Expression(body=copy.deepcopy(body[0].value))).body
+            e = _Subst(dict(zip(params, node.args))).visit(ast.Expression(body=copy.deepcopy(ret))).body
             for x in ast.walk(e):
                 ast.copy_location(x, node)
             changed.append(f.attr)
@@ -503,4 +518,19 @@ def expand_expr_helpers(ctx, fn):
     ast.fix_missing_locations(new)
     out = FuncInfo(fn.module, fn.cls, new, parent=fn.parent)
     out.variant = "expr-helpers-expanded"
+    return out
+
+
+def deep_calls(ctx, cls, calls, depth=2):
+    """The given Call nodes plus -- for every `self._helper(...)` among them that resolves to a private method of the class hierarchy -- the calls in
+    that helper's body (recursively, bounded). Rules that ask "does this path send X" then see the send whether or not it was moved into a helper."""
+    out = []
+    for c in calls:
+        out.append(c)
+        if depth > 0 and isinstance(c.func, ast.Attribute) and isinstance(c.func.value, ast.Name) and c.func.value.id == "self" and c.func.attr.startswith("_") \
+                and not c.func.attr.startswith("__") and cls is not None:
+            h = ctx.program.lookup_method(cls, c.func.attr)
+            if h is not None:
+                from ..core.index import calls_in as _ci
+                out.extend(deep_calls(ctx, cls, list(_ci(h.node)), depth - 1))
     return out
